@@ -4,11 +4,13 @@ Kinds == {"range", "le", "ge", "eq"}
 RowSeqs == {<<"range", "le">>, <<"eq", "range", "ge">>, <<"le", "ge", "eq", "range">>, <<"range", "range">>, <<"ge", "eq">>}
 Extras == {"none", "abs", "logic", "abs+logic",
            "sos1", "sos2+abs",
-           "ite", "ite+max"}        \* if-then-else with variable branches / and a max: multi-level conversions      \* an SOS set over the variables, given by the suffixes sosno / ref
+           "ite", "ite+max",
+           "logic3"}        \* if-then-else with variable branches / and a max: multi-level conversions      \* an SOS set over the variables, given by the suffixes sosno / ref
 RangeModes == {"native", "slack", "linear"}
 Modes == 0..3
 Files == {"absent", "present", "short", "crlf",
-          "colonly", "rowonly"}      \* only one of the two name files was written
+          "colonly", "rowonly",
+          "rowcutlog"}      \* only one of the two name files was written
 NameSets == {"plain", "derivedlike", "genericlike", "sluglike",
              "long"}        \* names of about 270 characters (AMPL items indexed over long string set members)
 VARIABLES rows, extra, rmode, mode, files, nameset
